@@ -26,6 +26,7 @@ M = [
  ('C18-get-specific-stops-at-first-queue', 'C18', 'src/queue.c', '			ctxt = _dispatch_queue_get_specific_inline(dq, key);\n			dq = dq->do_targetq;\n		} while (unlikely(ctxt == NULL && dq));\n	}\n	return ctxt;\n}\n\n#pragma mark -', '			ctxt = _dispatch_queue_get_specific_inline(dq, key);\n			dq = NULL;\n		} while (unlikely(ctxt == NULL && dq));\n	}\n	return ctxt;\n}\n\n#pragma mark -', 0),
  ('C19-cancelled-block-does-not-complete', 'C19', 'src/queue.c', '	if (likely(!(atomic_flags & DBF_CANCELED))) {\n		dbpd->dbpd_block();\n	}\n	if ((atomic_flags & DBF_PERFORM) == 0) {', '	if (likely(!(atomic_flags & DBF_CANCELED))) {\n		dbpd->dbpd_block();\n	}\n	if ((atomic_flags & (DBF_PERFORM | DBF_CANCELED)) == 0) {', 0),
  ('C02-sync-fastpath-ignores-queued-items', 'C02', 'src/inline_internal.h', '	if (unlikely(dq->dq_items_tail)) {\n		return false;\n	}\n\n	return os_atomic_rmw_loop2o(dq, dq_state, old_state, new_state, acquire, {\n		uint64_t role = old_state & DISPATCH_QUEUE_ROLE_MASK;\n		if (old_state != (init | role)) {', '	return os_atomic_rmw_loop2o(dq, dq_state, old_state, new_state, acquire, {\n		uint64_t role = old_state & DISPATCH_QUEUE_ROLE_MASK;\n		if ((old_state & ~(DISPATCH_QUEUE_ENQUEUED | DISPATCH_QUEUE_DIRTY | DISPATCH_QUEUE_MAX_QOS_MASK)) != (init | role)) {', 0),
+ ('C02-main-queue-handoff-before-unbinding', 'C02', 'src/queue.c', '	_dispatch_queue_atomic_flags_clear(dq, DQF_THREAD_BOUND);\n	_dispatch_lane_barrier_complete(dq, 0, 0);\n', '	_dispatch_lane_barrier_complete(dq, 0, 0);\n	_dispatch_queue_atomic_flags_clear(dq, DQF_THREAD_BOUND);\n', 0),
 ]
 def run(*a): return subprocess.run(a, capture_output=True, text=True)
 def main():
